@@ -179,6 +179,7 @@ def make_frame(mods, r, kind, seed, a=1.0, b=1.0):
 
 def fit(mods, df, uc):
   m = mods['iroas'].TBRiROAS(use_cooldown=uc)
+  base.refit_prelude(m, df, iroas=True)
   m.fit(df)
   return m
 
